@@ -9,12 +9,15 @@ from .. import storage
 from ..pathcond import implied
 
 MANIFEST = {
-    'technique': 'def-use rule tying every argument of the mixture call to a component of the validity key read in the same invocation; typestate rule "memo and key are one unit" (no function may make two objects share the memo dict); must-follow rule reset_cache after a property-package change',
-    'text': 'Decides for every history: in both _get_property implementations everything passed to the mixture model (phase(s), composition, T, P) is '
-            'derived from a component of the validity key read in that invocation, a hit requires both key parts to match and a miss clears the memo '
-            'and stores a copy of the composition key; no function makes two stream objects share _property_cache (the key is re-bound on every miss, so '
-            'a shared dict with private keys returns stale values); every assignment of a property package outside constructors is followed by '
-            'reset_cache(). Equality with a freshly created stream additionally needs model determinism and is not decided.',
+    'technique': 'def-use rule tying every argument of the mixture call to a component of the validity key read in the same invocation; typestate rule "memo and key are '
+            'one unit" (no function may make two objects share the memo dict); must-follow rule reset_cache after a property-package change; load/try/finally-clear '
+            'rule for solver scratch state on the shared mixture object',
+    'text': 'Decides for every history: in both _get_property implementations everything passed to the mixture model (phase(s), composition, T, P) is derived from '
+            'a component of the validity key read in that invocation, a hit requires both key parts to match and a miss clears the memo and stores a copy of the '
+            'composition key; no function makes two stream objects share _property_cache (the key is re-bound on every miss, so a shared dict with private keys '
+            'returns stale values); every assignment of a property package outside constructors is followed by reset_cache(); free-energy arguments loaded into the '
+            '(package-wide) mixture object for a temperature solve are cleared by a finally clause on every exit. Equality with a freshly created stream '
+            'additionally needs model determinism and is not decided.',
 }
 
 ST = 'thermosteam/_stream.py'
@@ -27,6 +30,7 @@ def run(ctx):
         'D1 the validity key covers every input of the mixture call; hit needs both parts equal; miss clears and re-keys with a copy',
         'D2 the memo dict is never shared between objects (memo and key are one unit)',
         'D3 a change of property package is followed by reset_cache()',
+        'D4 free-energy arguments loaded into the shared mixture object for a T solve are cleared by a finally clause on every exit',
     ]
     ctx.not_decided = ['equality with a freshly created stream (needs model determinism)', 'interleavings of reads and mutations at run time']
     d1 = ctx.rule('D1', 'key covers inputs', floor=8)
@@ -36,6 +40,11 @@ def run(ctx):
         key_rule(ctx, d1, prog.method(cname, '_get_property', rel=rel), cname)
     share_rule(ctx, d2)
     thermo_rule(ctx, d3)
+    # the mixture object is shared by every stream of the package: arguments loaded into it for a temperature solve and not
+    # released make every later H/S read (of any stream) use a stale composition / pressure
+    d4 = ctx.rule('D4', 'solver scratch state on the shared mixture object is released on every exit', floor=4)
+    from .C02 import scratch
+    scratch(ctx, d4)
 
 
 def key_rule(ctx, d1, f, cname):
